@@ -1,0 +1,16 @@
+//go:build verif
+
+// Contracts for the deductive verifier in /verif (comment-only file; see /verif/DESIGN.md).
+package initproducerid
+
+//@ property C04
+
+// Wire layout per version, from the Kafka protocol definition of this API (field order, types and the versions each field
+// exists in); the encoders and decoders are compiled from the struct tags, so the tags are checked against it.
+//@ wire Request
+//@   layout v0..v1 TransactionalID string?, TransactionTimeoutMs int32
+//@   layout v2 _ struct{} @-1, TransactionalID string?, TransactionTimeoutMs int32
+//@   layout v3..v4 _ struct{} @-1, TransactionalID string?, TransactionTimeoutMs int32, ProducerID int64, ProducerEpoch int16
+//@ wire Response
+//@   layout v0..v1 ThrottleTimeMs int32, ErrorCode int16, ProducerID int64, ProducerEpoch int16
+//@   layout v2..v4 _ struct{} @-1, ThrottleTimeMs int32, ErrorCode int16, ProducerID int64, ProducerEpoch int16
